@@ -15,8 +15,20 @@
    (cbmc's own memset model allocates a variable-length array of the symbolic size: out of memory.) */
 static void *h4v_memset(void *s, int c, size_t n);
 #define memset h4v_memset
+/* A-ALLOC (DESIGN 10.5): allocation failure is out of scope -- malloc in hblocks.c does not return NULL.
+   (Side observation: HLInewlink and HLIgetlink dereference the NULL result in their cleanup code when the first malloc fails.) */
+static void *h4v_malloc(size_t n);
+#define malloc h4v_malloc
 #include "hblocks.c"
 #undef memset
+#undef malloc
+static void *
+h4v_malloc(size_t n)
+{
+    void *p = malloc(n);
+    H4V_ASSUME(p != NULL);
+    return p;
+}
 
 H4V_DECL_ND(int);
 H4V_DECL_ND(unsigned);
@@ -38,6 +50,9 @@ H4V_DECL_ND(uint16);
 #endif
 #ifndef H4V_CASE
 #define H4V_CASE 0
+#endif
+#ifndef H4V_NBMIN
+#define H4V_NBMIN 1
 #endif
 #define H4V_MAXT 4 /* size of the ghost table array */
 #define H4V_MAXK 8 /* block indices the geometry helpers know */
@@ -322,10 +337,19 @@ Hwrite(int32 access_id, int32 length, const void *data)
             return FAIL;
         if (sub_fail())
             return FAIL;
-        for (i = 0; i < length; i++) {
-            g_hdr[g_sub_off + i] = d[i];
-            g_hdr_mask |= 1u << (g_sub_off + i);
+        if (g_sub_off == 0 && length == 16) { /* the whole header (HLcreate, HLconvert) */
+            memcpy(g_hdr, d, 16);
+            g_hdr_mask |= 0xffffu;
         }
+        else if (g_sub_off == 2 && length == 4) { /* the element length (HLPwrite) */
+            memcpy(g_hdr + 2, d, 4);
+            g_hdr_mask |= 0x3cu;
+        }
+        else /* any other shape: generic (needs a larger unwind bound if it ever becomes reachable) */
+            for (i = 0; i < length; i++) {
+                g_hdr[g_sub_off + i] = d[i];
+                g_hdr_mask |= 1u << (g_sub_off + i);
+            }
         g_sub_off += length;
         g_hdr_wr_n++;
         return length;
@@ -615,6 +639,120 @@ int32 HLPread(accrec_t *access_rec, int32 length, void *datap)
     /* without a fault every sub-access was ended again */
     __CPROVER_ensures(!g_sub_failed ==> (g_sub_kind == 0 && g_start_n == g_end_n));
 
+
+/* C13 (+C14, C01): HLconvert -- promotion of the caller's ordinary element to linked blocks.  Whatever happens, the
+   caller's access record stays the caller's: it is still registered under `aid`, so it must never be handed to
+   HIrelease_accrec_node (checked inside that stub and counted in g_release_n). */
+#define BE16B(v, k) ((uint8)(((uint16)(v)) >> (8 * (1 - (k)))))
+#define BE32B(v, k) ((uint8)(((uint32)(v)) >> (8 * (3 - (k)))))
+#define CONV_INFO ((linkinfo_t *)g_arec->special_info)
+/* the 16-byte special header of a linked-block element (constant shifts only) */
+#define LHDR_OK(h, len, bl, nb, lref)                                                                        \
+    ((h)[0] == BE16B(SPECIAL_LINKED, 0) && (h)[1] == BE16B(SPECIAL_LINKED, 1) && (h)[2] == BE32B(len, 0) && (h)[3] == BE32B(len, 1) &&   \
+     (h)[4] == BE32B(len, 2) && (h)[5] == BE32B(len, 3) && (h)[6] == BE32B(bl, 0) && (h)[7] == BE32B(bl, 1) && (h)[8] == BE32B(bl, 2) && \
+     (h)[9] == BE32B(bl, 3) && (h)[10] == BE32B(nb, 0) && (h)[11] == BE32B(nb, 1) && (h)[12] == BE32B(nb, 2) &&                         \
+     (h)[13] == BE32B(nb, 3) && (h)[14] == BE16B(lref, 0) && (h)[15] == BE16B(lref, 1))
+int HLconvert(int32 aid, int32 block_length, int32 number_blocks)
+    __CPROVER_requires(g_arec != NULL && g_frec != NULL && g_arec->file_id == g_fid && g_frec->refcount >= 1 && g_arec->posn >= 0)
+    __CPROVER_requires(g_arec->special == 0 && g_arec->special_info == NULL && g_registered && g_posn0 == g_arec->posn)
+    __CPROVER_requires(number_blocks != 0) /* a block table without blocks is not a table (see HLInewlink_nb0) */
+    __CPROVER_requires(g_mut_n == 0 && g_release_n == 0 && g_start_n == 0 && g_end_n == 0 && g_hdr_mask == 0 && g_sub_kind == 0 &&
+                       g_sub_failed == 0 && g_htp_failed == 0 && g_newref_n == 0 && g_img_n == 0 && g_j >= 0 && g_j < 16)
+    __CPROVER_assigns(__CPROVER_object_whole(g_arec), g_dd_tag, g_dd_ref, g_dd_off, g_dd_len, g_mut_n, g_release_n, g_sub_kind, g_sub_ref,
+                      g_sub_off, g_sub_len, g_sub_wr, g_start_n, g_end_n, g_bwr_n, g_twr_n, g_newref_n, g_next_pos, g_sub_failed,
+                      g_htp_failed, g_img_n, g_hdr_mask, g_hdr_wr_n, __CPROVER_object_whole(g_new_made), __CPROVER_object_whole(g_new_len),
+                      __CPROVER_object_whole(g_img_ref), __CPROVER_object_whole(g_img), __CPROVER_object_whole(g_hdr),
+                      __CPROVER_object_whole(g_wr_blkref))
+    /* C13: the caller's record is never released */
+    __CPROVER_ensures(g_release_n == 0)
+    /* bad arguments / C14: a read-only file / an element that is already special: refused before anything is changed */
+    __CPROVER_ensures((aid != g_aid || block_length < 0 || number_blocks < 0 || !(g_frec->access & DFACC_WRITE) || g_is_special) ==>
+                      (__CPROVER_return_value == FAIL && g_mut_n == 0 && g_start_n == 0 && g_arec->special == 0))
+    __CPROVER_ensures(__CPROVER_return_value == SUCCEED || __CPROVER_return_value == FAIL)
+    __CPROVER_ensures((g_sub_failed || g_htp_failed) ==> __CPROVER_return_value == FAIL)
+    __CPROVER_ensures((aid == g_aid && block_length >= 0 && number_blocks > 0 && (g_frec->access & DFACC_WRITE) && !g_is_special &&
+                       !g_sub_failed && !g_htp_failed) ==> __CPROVER_return_value == SUCCEED)
+    /* C01: the converted element has the same length and position; the old data is its first block */
+    __CPROVER_ensures(__CPROVER_return_value == SUCCEED ==>
+                      (g_arec->special == SPECIAL_LINKED && g_arec->special_func == &linked_funcs && g_arec->posn == g_posn0 &&
+                       CONV_INFO != NULL && CONV_INFO->length == g_dd_len && CONV_INFO->first_length == g_dd_len &&
+                       CONV_INFO->block_length == block_length && CONV_INFO->number_blocks == number_blocks && CONV_INFO->attached == 1 &&
+                       CONV_INFO->link != NULL && CONV_INFO->link->next == NULL && CONV_INFO->link->nextref == 0 &&
+                       CONV_INFO->link->block_list[0].ref != 0))
+    /* C02: the special header on disk describes exactly that, and the first block table is on disk as it is in memory */
+    __CPROVER_ensures(__CPROVER_return_value == SUCCEED ==>
+                      (g_hdr_mask == 0xffffu && LHDR_OK(g_hdr, g_dd_len, block_length, number_blocks, CONV_INFO->link_ref)))
+    __CPROVER_ensures(__CPROVER_return_value == SUCCEED ==>
+                      (g_img_n == 1 && g_img_ref[0] == CONV_INFO->link_ref && g_img[0][0] == 0 &&
+                       g_img[0][1] == CONV_INFO->link->block_list[0].ref));
+
+/* C02: HLgetdatainfo -- raw (offset, length) of the data blocks, never more entries than the caller's arrays hold */
+int      g_exp_total;              /* number of data blocks of the element (leading non-zero refs of each table) */
+uint16   g_exp_ref[H4V_MAXK + 1];  /* their refs, in order */
+#define GDI_MIN(a, b) ((a) < (b) ? (a) : (b))
+int HLgetdatainfo(int32 file_id, uint8 *buf, unsigned start_block, unsigned info_count, int32 *offsetarray, int32 *lengtharray)
+    __CPROVER_requires(file_id == g_fid && buf != NULL && g_exp_total >= 0 && g_exp_total <= H4V_MAXK)
+    __CPROVER_requires((offsetarray == NULL) == (lengtharray == NULL) && (offsetarray != NULL || info_count == 0))
+    __CPROVER_requires(g_sub_kind == 0 && g_sub_failed == 0 && g_start_n == 0 && g_end_n == 0)
+    __CPROVER_assigns(g_sub_kind, g_sub_ref, g_sub_off, g_sub_len, g_sub_wr, g_start_n, g_end_n, g_brd_n, g_sub_failed;
+                      offsetarray != NULL: __CPROVER_object_whole(offsetarray); lengtharray != NULL: __CPROVER_object_whole(lengtharray))
+    __CPROVER_ensures((offsetarray != NULL && info_count == 0) ==> __CPROVER_return_value == FAIL)
+    __CPROVER_ensures(g_sub_failed ==> __CPROVER_return_value == FAIL)
+    /* the count never exceeds the caller-supplied array size */
+    __CPROVER_ensures((offsetarray != NULL && __CPROVER_return_value != FAIL) ==> (unsigned)__CPROVER_return_value <= info_count)
+    __CPROVER_ensures((offsetarray != NULL && info_count > 0 && !g_sub_failed) ==>
+                      __CPROVER_return_value == (int)GDI_MIN((unsigned)g_exp_total, info_count))
+    /* without arrays: the number of data blocks */
+    __CPROVER_ensures((offsetarray == NULL && !g_sub_failed) ==> __CPROVER_return_value == g_exp_total);
+
+/* C01/C02: HLPwrite -- write into a growable byte array stored as a chain of blocks */
+int32 g_old_length;
+#define WR_MAX(a, b) ((a) > (b) ? (a) : (b))
+int32 HLPwrite(accrec_t *access_rec, int32 length, const void *datap)
+    __CPROVER_requires(access_rec == g_arec && LINK_WF && g_frec != NULL && g_frec->refcount >= 1)
+    /* the invariant Hstartaccess establishes and Hwrite checks: a record with write access belongs to a writable file */
+    __CPROVER_requires((g_arec->access & DFACC_WRITE) && (g_frec->access & DFACC_WRITE))
+    __CPROVER_requires(datap == (const void *)g_buf && g_posn0 == access_rec->posn && g_next_pos == g_posn0 && g_old_length == g_info->length)
+    __CPROVER_requires(g_sub_kind == 0 && g_bwr_n == 0 && g_twr_n == 0 && g_start_n == 0 && g_end_n == 0 && g_sub_failed == 0 &&
+                       g_htp_failed == 0 && g_hdr_mask == 0 && g_newref_n == 0)
+    __CPROVER_assigns(access_rec->posn, g_info->length, g_sub_kind, g_sub_ref, g_sub_off, g_sub_len, g_sub_wr, g_start_n, g_end_n, g_bwr_n,
+                      g_twr_n, g_newref_n, g_next_pos, g_sub_failed, g_htp_failed, g_img_n, g_hdr_mask, g_hdr_wr_n,
+                      __CPROVER_object_whole(g_new_made), __CPROVER_object_whole(g_new_len), __CPROVER_object_whole(g_img_ref),
+                      __CPROVER_object_whole(g_img), __CPROVER_object_whole(g_hdr), __CPROVER_object_whole(g_wr_blkref),
+                      __CPROVER_object_whole(g_tab[0]), __CPROVER_object_whole(g_tab[0]->block_list);
+                      g_tab[1] != NULL: __CPROVER_object_whole(g_tab[1]); g_tab[1] != NULL: __CPROVER_object_whole(g_tab[1]->block_list);
+                      g_tab[2] != NULL: __CPROVER_object_whole(g_tab[2]); g_tab[2] != NULL: __CPROVER_object_whole(g_tab[2]->block_list))
+    __CPROVER_ensures(length <= 0 ==> (__CPROVER_return_value == FAIL && g_start_n == 0))
+    __CPROVER_ensures(__CPROVER_return_value == FAIL ==> access_rec->posn == g_posn0)
+    __CPROVER_ensures((g_sub_failed || g_htp_failed) ==> __CPROVER_return_value == FAIL)
+    /* everything is written: count, position, tiling of [posn, posn+length) */
+    __CPROVER_ensures((length > 0 && !g_sub_failed && !g_htp_failed) ==> __CPROVER_return_value == length)
+    __CPROVER_ensures(__CPROVER_return_value != FAIL ==>
+                      (__CPROVER_return_value == length && access_rec->posn == g_posn0 + length && g_next_pos == g_posn0 + length))
+    /* the element grows exactly to the end of the write, and the stored length (4 bytes at offset 2 of the header) follows */
+    __CPROVER_ensures(__CPROVER_return_value != FAIL ==> g_info->length == WR_MAX(g_old_length, g_posn0 + length))
+    __CPROVER_ensures(__CPROVER_return_value != FAIL ==>
+                      (g_hdr_mask == 0x3cu && g_hdr[2] == BE32B(g_info->length, 0) && g_hdr[3] == BE32B(g_info->length, 1) &&
+                       g_hdr[4] == BE32B(g_info->length, 2) && g_hdr[5] == BE32B(g_info->length, 3)))
+    __CPROVER_ensures((!g_sub_failed && !g_htp_failed) ==> (g_sub_kind == 0 && g_start_n == g_end_n));
+
+/* C01/C02: HLInewlink -- a fresh block table in memory and, identically, on disk */
+static link_t *HLInewlink(int32 file_id, int32 number_blocks, uint16 link_ref, uint16 first_block_ref)
+    __CPROVER_requires(file_id == g_fid && g_frec != NULL && (g_frec->access & DFACC_WRITE) && number_blocks == g_info->number_blocks)
+    __CPROVER_requires(number_blocks >= 0 && link_ref >= 200 && link_ref - 200 < g_newref_n && g_img_n == 0 && g_sub_kind == 0 &&
+                       g_sub_failed == 0 && g_start_n == 0 && g_end_n == 0 && g_j >= 0 && g_j < number_blocks)
+    __CPROVER_assigns(g_sub_kind, g_sub_ref, g_sub_off, g_sub_len, g_sub_wr, g_start_n, g_end_n, g_twr_n, g_bwr_n, g_next_pos, g_sub_failed,
+                      g_img_n, g_hdr_mask, g_hdr_wr_n, __CPROVER_object_whole(g_new_made), __CPROVER_object_whole(g_new_len),
+                      __CPROVER_object_whole(g_img_ref), __CPROVER_object_whole(g_img), __CPROVER_object_whole(g_hdr),
+                      __CPROVER_object_whole(g_wr_blkref))
+    __CPROVER_ensures(g_sub_failed ==> __CPROVER_return_value == NULL)
+    __CPROVER_ensures(__CPROVER_return_value != NULL ==>
+                      (__CPROVER_return_value->next == NULL && __CPROVER_return_value->nextref == 0 &&
+                       __CPROVER_return_value->block_list[g_j].ref == (g_j == 0 ? first_block_ref : 0)))
+    __CPROVER_ensures(__CPROVER_return_value != NULL ==>
+                      (g_img_n == 1 && g_img_ref[0] == link_ref && g_img[0][0] == 0 && g_img[0][1 + g_j] == (g_j == 0 ? first_block_ref : 0) &&
+                       g_start_n == 1 && g_end_n == 1 && g_twr_n == 1));
+
 #ifdef H4V_NATIVE
 #include "h4v_native_wrap.h"
 #endif
@@ -626,7 +764,8 @@ mk_ids(void)
     H4V_HAVOC(int32, g_fid);
     H4V_HAVOC(int32, g_aid);
     H4V_ASSUME(g_fid != g_aid && g_fid != FAIL && g_aid != FAIL);
-    H4V_ASSUME(g_fid != AID_BLK && g_fid != AID_TAB && g_fid != AID_HDR && g_aid != AID_BLK && g_aid != AID_TAB && g_aid != AID_HDR);
+    H4V_ASSUME(g_fid != AID_BLK && g_fid != AID_TAB && g_fid != AID_HDR && g_fid != AID_NEW);
+    H4V_ASSUME(g_aid != AID_BLK && g_aid != AID_TAB && g_aid != AID_HDR && g_aid != AID_NEW);
     g_sub_kind = 0;
     g_sub_ref = 0;
     g_sub_off = g_sub_len = 0;
@@ -635,7 +774,8 @@ mk_ids(void)
     g_sub_failed = 0;
     g_newref_n   = 0;
     g_zero_n     = 0;
-    g_sub_may_fail = 0;
+    /* g_sub_may_fail, g_htp_may_fail, g_is_special: set exactly once by each harness (a havocked ghost must not be
+       assigned before its H4V_HAVOC, or the replay would pick up the wrong value) */
     memset(g_new_made, 0, sizeof g_new_made);
     memset(g_new_len, 0, sizeof g_new_len);
     memset(g_img_ref, 0, sizeof g_img_ref);
@@ -647,8 +787,7 @@ mk_ids(void)
     g_hdr_wr_n = 0;
     g_mut_n = g_release_n = 0;
     g_registered   = 1;
-    g_htp_may_fail = g_htp_failed = 0;
-    g_is_special   = 0;
+    g_htp_failed   = 0;
     g_buf          = NULL;
     g_cap          = 0;
     H4V_HAVOC(uint16, g_dd_tag);
@@ -731,8 +870,8 @@ mk_tables(void)
     g_info->number_blocks = H4V_NBC; /* one constant table size per run keeps the division by number_blocks concrete */
 #endif
     H4V_ASSUME(FL >= 0 && FL <= H4V_MAXLEN && BL >= 1 && BL <= H4V_MAXLEN);
+    g_tab[0] = g_tab[1] = g_tab[2] = g_tab[3] = NULL;
     for (t = 0; t < H4V_NT; t++) {
-        g_tab[t] = NULL;
         if (t < g_nt) {
             g_tab[t] = malloc(sizeof(link_t));
             H4V_ASSUME(g_tab[t] != NULL);
@@ -766,6 +905,7 @@ void
 h_HLPseek(void)
 {
     mk_recs();
+    g_sub_may_fail = g_htp_may_fail = g_is_special = 0;
     H4V_ND(int32, offset);
     H4V_ND(int, origin);
     int32 r = HLPseek(g_arec, offset, origin);
@@ -781,6 +921,7 @@ h_HLPread(void)
     mk_tables();
     g_arec->special = SPECIAL_LINKED;
     H4V_HAVOC(int, g_sub_may_fail);
+    g_htp_may_fail = g_is_special = 0;
     H4V_ND(int32, length);
     H4V_ASSUME(g_posn0 >= 0 && g_posn0 <= H4V_MAXPOS && length >= -1 && length <= H4V_MAXPOS);
     /* one obligation per region of the input space (H4V_CASE), so that each known defect fails its own obligation:
@@ -828,4 +969,232 @@ h_HLPread(void)
 #endif
     H4V_COVER(r == FAIL && g_sub_failed, "HLPread fault");
     H4V_CANARY("HLPread end");
+}
+
+/* ---------------------------------------------------------------- HLconvert */
+void
+h_HLconvert(void)
+{
+    mk_recs();
+    g_arec->special      = 0;
+    g_arec->special_info = NULL;
+    g_arec->special_func = NULL;
+    /* geometry for the stubs: the table written by HLInewlink has number_blocks entries */
+    H4V_ND(int32, aid);
+    H4V_ND(int32, block_length);
+    H4V_ND(int32, number_blocks);
+    H4V_ASSUME(number_blocks <= H4V_NB);
+#ifdef H4V_NBC
+    H4V_ASSUME(number_blocks == H4V_NBC);
+#endif
+    g_info->number_blocks = number_blocks; /* (the ghost geometry record; the real one is allocated by HLconvert) */
+    H4V_HAVOC(int, g_is_special);
+    H4V_ASSUME(g_is_special == 0 || g_is_special == 1);
+    H4V_HAVOC(int, g_sub_may_fail);
+    H4V_HAVOC(int, g_htp_may_fail);
+    H4V_HAVOC(int32, g_j);
+    H4V_ASSUME(BASETAG(g_dd_tag) == g_dd_tag && MKSPECIALTAG(g_dd_tag) != DFTAG_NULL); /* an ordinary element */
+    H4V_ASSUME((g_dd_off == INVALID_OFFSET && g_dd_len == INVALID_LENGTH) || (g_dd_off >= 0 && g_dd_len >= 0));
+#if H4V_CASE == 1 /* the conversion has to succeed */
+    H4V_ASSUME(aid == g_aid && block_length >= 0 && number_blocks > 0 && (g_frec->access & DFACC_WRITE) && !g_is_special);
+    g_sub_may_fail = g_htp_may_fail = 0;
+#elif H4V_CASE == 2 /* C14 gate: read-only file */
+    H4V_ASSUME(aid == g_aid && !(g_frec->access & DFACC_WRITE));
+#endif
+    int r = HLconvert(aid, block_length, number_blocks);
+#if H4V_CASE == 1
+    H4V_COVER(r == SUCCEED && g_posn0 > 0, "HLconvert ok, position restored");
+    H4V_COVER(r == SUCCEED && g_dd_len == 0, "HLconvert of an element without data");
+#else
+    H4V_COVER(r == FAIL && aid == g_aid, "HLconvert refused or failed");
+#endif
+    H4V_CANARY("HLconvert end");
+}
+
+/* ---------------------------------------------------------------- HLgetdatainfo */
+void
+h_HLgetdatainfo(void)
+{
+    int t, i;
+    mk_recs();
+    mk_tables();
+    H4V_HAVOC(int, g_sub_may_fail);
+    g_htp_may_fail = g_is_special = 0;
+    /* the data blocks an independent reader finds: the leading non-zero refs of every table of the chain */
+    g_exp_total = 0;
+    for (t = 0; t < H4V_NT; t++)
+        if (t < g_nt) {
+            int open = 1;
+            for (i = 0; i < H4V_NB; i++)
+                if (i < NBLK) {
+                    if (g_tab[t]->block_list[i].ref == 0)
+                        open = 0;
+                    if (open)
+                        g_exp_ref[g_exp_total++] = g_tab[t]->block_list[i].ref;
+                }
+        }
+    /* the 14 bytes of the special header after the special code */
+    uint8 *hb = malloc(14);
+    H4V_ASSUME(hb != NULL);
+    {
+        uint8 *p = hb;
+        INT32ENCODE(p, g_info->length);
+        INT32ENCODE(p, g_info->block_length);
+        INT32ENCODE(p, g_info->number_blocks);
+        UINT16ENCODE(p, g_info->link_ref);
+    }
+    H4V_ND(unsigned, info_count);
+    H4V_ND(int, with_arrays);
+    H4V_ASSUME(info_count <= (unsigned)H4V_MAXK + 1);
+    if (!with_arrays)
+        info_count = 0;
+    int32 *offs = NULL, *lens = NULL;
+    if (with_arrays) { /* exactly info_count entries each */
+        offs = malloc((size_t)info_count * sizeof(int32));
+        lens = malloc((size_t)info_count * sizeof(int32));
+        H4V_ASSUME(offs != NULL && lens != NULL);
+    }
+    H4V_HAVOC(int32, g_j);
+    H4V_ASSUME(g_j >= 0 && g_j <= H4V_MAXK);
+    /* regions of the input space (one obligation each): 1 = no fault, arrays (if any) hold every block of the element;
+       2 = no fault, arrays smaller than the element; 3 = sub-access faults injected */
+#if H4V_CASE == 1
+    g_sub_may_fail = 0;
+    H4V_ASSUME(!with_arrays || info_count >= (unsigned)g_exp_total);
+#elif H4V_CASE == 2
+    g_sub_may_fail = 0;
+    H4V_ASSUME(with_arrays && info_count > 0 && info_count < (unsigned)g_exp_total);
+#elif H4V_CASE == 3
+    H4V_ASSUME(!with_arrays || info_count >= (unsigned)g_exp_total);
+#endif
+    int r = HLgetdatainfo(g_fid, hb, 0, info_count, offs, lens);
+    if (r != FAIL && with_arrays && g_j < r && g_j < (int)info_count && g_j < g_exp_total) {
+        H4V_CHECK(offs[g_j] == OFF_OF(g_exp_ref[g_j]), "C02: reported offset is where the data block is");
+        H4V_CHECK(g_j == g_exp_total - 1 || lens[g_j] == blk_len(g_exp_ref[g_j] - 1), "C02: reported length of a non-final block is the block length");
+    }
+#if H4V_CASE == 1 || H4V_CASE == 0
+    H4V_COVER(r != FAIL && with_arrays && (unsigned)r < info_count && r >= 2, "HLgetdatainfo arrays larger than the element");
+    H4V_COVER(r != FAIL && !with_arrays && r >= 3, "HLgetdatainfo count only");
+#endif
+#if H4V_CASE == 3
+    H4V_COVER(r == FAIL && g_sub_failed, "HLgetdatainfo fault reported");
+#endif
+    H4V_CANARY("HLgetdatainfo end");
+}
+
+/* ---------------------------------------------------------------- HLPwrite */
+static link_t *
+final_tab(int t)
+{
+    link_t *l = g_info->link;
+    int     i;
+    for (i = 0; i < H4V_NT; i++) {
+        if (l == NULL || i == t)
+            return l;
+        l = l->next;
+    }
+    return NULL;
+}
+static uint16
+final_ref(int k)
+{
+    link_t *l = final_tab(k / NBLK);
+    return l == NULL ? 0 : l->block_list[k % NBLK].ref;
+}
+
+void
+h_HLPwrite(void)
+{
+    mk_recs();
+    mk_tables();
+    g_arec->special = SPECIAL_LINKED;
+    g_old_length    = g_info->length;
+    g_is_special    = 1;
+    H4V_HAVOC(int, g_sub_may_fail);
+    H4V_HAVOC(int, g_htp_may_fail);
+    H4V_ND(int32, length);
+    H4V_ASSUME(g_posn0 >= 0 && g_posn0 <= H4V_MAXPOS && length >= -1 && length <= H4V_MAXPOS);
+    /* bound: the write ends inside the H4V_NT tables modelled (missing tables up to that number are created) */
+    H4V_ASSUME(length <= 0 || blk_of(g_posn0 + length - 1) < H4V_NT * NBLK);
+    g_cap = length > 0 ? length : 0;
+    g_buf = malloc((size_t)g_cap);
+    H4V_ASSUME(g_buf != NULL);
+#ifndef H4V_CBMC
+    for (int32 bi = 0; bi < g_cap; bi++)
+        g_buf[bi] = PAT(g_posn0 + bi);
+#endif
+    int32 r = HLPwrite(g_arec, length, g_buf);
+    if (r != FAIL) {
+        int first = blk_of(g_posn0), last = blk_of(g_posn0 + length - 1);
+        int nt_exp = last / NBLK + 1 > g_nt ? last / NBLK + 1 : g_nt;
+        H4V_ND(int, gk);
+        H4V_ND(int, gk2);
+        H4V_ND(int, gt);
+        H4V_ND(int, gi);
+        H4V_ASSUME(gk >= 0 && gk < H4V_NT * NBLK && gk2 >= 0 && gk2 < H4V_NT * NBLK && gt >= 0 && gt < H4V_NT && gi >= 0 && gi < NBLK);
+        /* (a) blocks: existing ones keep their ref, missing ones are created exactly when the write touches them */
+        uint16 fr  = final_ref(gk);
+        uint16 old = (uint16)((gk < g_nt * NBLK && !MISSING(gk)) ? REF_BLK(gk) : 0);
+        int    touched = gk >= first && gk <= last;
+        H4V_CHECK(old == 0 || fr == old, "C01: an existing block keeps its ref");
+        H4V_CHECK(old != 0 || (fr != 0) == touched, "C01: a missing block is created exactly when the write touches it");
+        H4V_CHECK(!touched || g_wr_blkref[gk] == fr, "C01: the data of block k went to the element the table names for block k");
+        H4V_CHECK(fr < 200 || (g_new_made[fr - 200] && g_new_len[fr - 200] == blk_len(gk)), "C01: a new block has the nominal block length");
+        H4V_CHECK(gk == gk2 || fr == 0 || fr != final_ref(gk2), "C02: no two blocks share a ref");
+        /* (b) tables: created exactly up to the last block written */
+        H4V_CHECK((final_tab(gt) != NULL) == (gt < nt_exp), "C01: missing block tables are created exactly when needed");
+        /* (c) every table of the chain is on disk as it is in memory */
+        link_t *l = final_tab(gt);
+        if (l != NULL) {
+            uint16 tref = gt == 0 ? g_info->link_ref : final_tab(gt - 1)->nextref;
+            int    idx  = img_find(tref);
+            H4V_CHECK(tref != 0 && idx >= 0, "C02: every table of the chain exists on disk under the ref its predecessor names");
+            H4V_CHECK((l->next == NULL) == (l->nextref == 0), "C02: next pointer and next ref agree");
+            if (idx >= 0) {
+                H4V_CHECK(g_img[idx][0] == l->nextref, "C02: next_ref on disk == in memory");
+                H4V_CHECK(g_img[idx][1 + gi] == l->block_list[gi].ref, "C02: block ref on disk == in memory");
+            }
+        }
+    }
+    H4V_COVER(r > 0 && g_bwr_n >= 2 && g_newref_n == 0, "HLPwrite across existing blocks");
+    H4V_COVER(r > 0 && g_img_n > g_nt, "HLPwrite created a block table");
+    H4V_COVER(r > 0 && g_newref_n >= 1 && g_img_n == g_nt, "HLPwrite created a block");
+    H4V_COVER(r > 0 && g_info->length > g_old_length, "HLPwrite grew the element");
+    H4V_COVER(r == FAIL && g_sub_failed, "HLPwrite fault");
+    H4V_CANARY("HLPwrite end");
+}
+
+/* ---------------------------------------------------------------- HLInewlink */
+/* number_blocks == 0 is accepted by HLcreate/HLconvert (only negative values are refused): memory safety only */
+void
+h_HLInewlink_nb0(void)
+{
+    mk_recs();
+    H4V_ND(uint16, first_block_ref);
+    g_info->number_blocks = 0;
+    g_frec->access |= DFACC_WRITE;
+    g_sub_may_fail = g_htp_may_fail = g_is_special = 0;
+    uint16  lref = Htagnewref(g_fid, DFTAG_LINKED);
+    link_t *l    = HLInewlink(g_fid, 0, lref, first_block_ref);
+    H4V_COVER(l != NULL, "HLInewlink nb0 returned a table");
+    H4V_CANARY("HLInewlink nb0 end");
+}
+
+void
+h_HLInewlink(void)
+{
+    mk_recs();
+    H4V_ND(int32, number_blocks);
+    H4V_ND(uint16, first_block_ref);
+    H4V_ASSUME(number_blocks >= H4V_NBMIN && number_blocks <= H4V_NB);
+    g_info->number_blocks = number_blocks;
+    g_frec->access |= DFACC_WRITE;
+    H4V_HAVOC(int, g_sub_may_fail);
+    g_htp_may_fail = g_is_special = 0;
+    H4V_HAVOC(int32, g_j);
+    uint16  lref = Htagnewref(g_fid, DFTAG_LINKED);
+    link_t *l    = HLInewlink(g_fid, number_blocks, lref, first_block_ref);
+    H4V_COVER(l != NULL, "HLInewlink ok");
+    H4V_COVER(l == NULL, "HLInewlink fault");
+    H4V_CANARY("HLInewlink end");
 }
